@@ -360,13 +360,12 @@ class Interp:
         elif isinstance(st, For):
             arr = self.expr(st.arr, env, pc)
             ety = st.arr.ty.elem
-            env.push()
             for x in arr:
-                # the loop variable lives in the loop scope, body statements share that scope
+                env.push()  # every iteration has its own scope (Rust)
                 self.bind(st.pat, ety, x, env)
                 for b in st.body:
                     self.stmt(b, env, pc)
-            env.pop()
+                env.pop()
         elif isinstance(st, ForJoin):
             a = self.expr(st.a, env, pc)
             b = self.expr(st.b, env, pc)
